@@ -66,7 +66,7 @@ pub struct GraphState {
 }
 
 pub const GD_H: usize = 0; // H<T> { g: T }
-pub const GD_P: usize = 1; // P<T> { raw: u64, m: PhantomData<T> }
+pub const GD_P: usize = 1; // P<L, T> { raw: u64, m: PhantomData<(L, T)> } with L skipped
 pub const GD_FIRST: usize = 2;
 
 impl GraphState {
@@ -80,15 +80,21 @@ impl GraphState {
     pub fn program(&self) -> Program {
         let mut defs = vec![
             Def::strukt(&["g", "h"], "H", &["T"], named(vec![("g", Ty::Param(0))])),
-            Def::strukt(
-                &["g", "h"],
-                "P",
-                &["T"],
-                named(vec![
-                    ("raw", Ty::Prim(Prim::U64)),
-                    ("m", Ty::Phantom(b(Ty::Param(0)))),
-                ]),
-            ),
+            // a SKIPPED parameter first, then the marker-only one (a traversal of the type parameters must not stop
+            // at the first parameter without a type)
+            {
+                let mut p = Def::strukt(
+                    &["g", "h"],
+                    "P",
+                    &["L", "T"],
+                    named(vec![
+                        ("raw", Ty::Prim(Prim::U64)),
+                        ("m", Ty::Phantom(b(Ty::Tuple(vec![Ty::Param(0), Ty::Param(1)])))),
+                    ]),
+                );
+                p.params[0].skipped = true;
+                p
+            },
         ];
         for (i, k) in self.nodes.iter().enumerate() {
             let module: Vec<String> = vec!["g".into(), format!("m{}", i % 2)];
@@ -112,7 +118,7 @@ impl GraphState {
                     Label::MapVal => Ty::BTreeMap(b(U8), b(t)),
                     Label::TypeArg => Ty::Named(GD_H, vec![t]),
                     Label::Compact => t,
-                    Label::PhantomArg => Ty::Named(GD_P, vec![t]),
+                    Label::PhantomArg => Ty::Named(GD_P, vec![Ty::Tuple(vec![]), t]),
                 };
                 fields.push((
                     format!("e{k_e}"),
